@@ -129,7 +129,7 @@ class SLock:
 
 
 def run_schedule(tid, nthreads, k, picker, rng, broken_lock=False, client_name="tcp", units_differ=False, drop_first_of=0,
-                 connfail_first=False, slow=False):
+                 connfail_first=False, slow=False, broadcaster=0):
     """drop_first_of = t: the peer does not answer thread t's first transmission (the client retries after a back-off sleep);
     connfail_first: the very first connection attempt fails (that caller gets a ConnectionException, the others must go on)"""
     clock = C.VClock()
@@ -150,6 +150,8 @@ def run_schedule(tid, nthreads, k, picker, rng, broken_lock=False, client_name="
             tid_, = struct.unpack(">H", data[:2])
             uid_ = data[6]
             addr, qty = struct.unpack(">HH", data[8:12])
+            if uid_ == 0 and broadcaster:
+                return {"rx": b""}        # a broadcast write: nobody answers
         else:                 # RTU: unit, function, address, quantity, CRC
             tid_, uid_ = 0, data[0]
             addr, qty = struct.unpack(">HH", data[2:6])
@@ -182,8 +184,8 @@ def run_schedule(tid, nthreads, k, picker, rng, broken_lock=False, client_name="
     TX.RLock = lambda: SLock(sched, broken=broken_lock)
     try:
         with C.Patches(clock, line):
-            kind, client, dec = C.make_client(client_name, {"retries": 1 if drop_first_of else 0, "roe": 1 if drop_first_of else 0, "roi": 0},
-                                              timeout=1)
+            kind, client, dec = C.make_client(client_name, {"retries": 1 if drop_first_of else 0, "roe": 1 if drop_first_of else 0, "roi": 0,
+                                                            "broadcast": 1 if broadcaster else 0}, timeout=1)
             if connfail_first:
                 line.connect_ok = False
                 orig_hook = line.hook
@@ -204,8 +206,18 @@ def run_schedule(tid, nthreads, k, picker, rng, broken_lock=False, client_name="
                         want = 100 * t + j
                         res = {"th": t, "want": want, "gotv": -1, "kind": "none"}
                         try:
-                            r = client.execute(ReadHoldingRegistersRequest(want, 1 + t, unit=t if units_differ else 1))
-                            if r is not None and not isinstance(r, Exception) and hasattr(r, "registers"):
+                            if t == broadcaster:
+                                # this caller broadcasts (unit 0, broadcast_enable): a transmission without a reply - it still is a
+                                # transaction of the shared client and must not be sent into another caller's transaction
+                                from pymodbus.register_write_message import WriteSingleRegisterRequest
+                                r = client.execute(WriteSingleRegisterRequest(want, 1 + j, unit=0))
+                                res["kind"] = "broadcast" if isinstance(r, (bytes, str)) else "other:" + type(r).__name__
+                                r = None
+                            else:
+                                r = client.execute(ReadHoldingRegistersRequest(want, 1 + t, unit=t if units_differ else 1))
+                            if t == broadcaster:
+                                pass
+                            elif r is not None and not isinstance(r, Exception) and hasattr(r, "registers"):
                                 res["kind"] = "reply"
                                 res["gotv"] = int(r.registers[0]) if r.registers else -2
                             elif isinstance(r, Exception):
@@ -221,7 +233,7 @@ def run_schedule(tid, nthreads, k, picker, rng, broken_lock=False, client_name="
                         calls.append(res)
                         sched.events.append({"th": t, "op": "done",
                                              "res": "own" if (res["kind"] == "reply" and res["gotv"] == want) else
-                                                    ("other" if res["kind"] == "reply" else "error")})
+                                                    ("other" if res["kind"] == "reply" else ("bcast" if res["kind"] == "broadcast" else "error"))})
                 except Abort:
                     pass
                 finally:
@@ -241,7 +253,7 @@ def run_schedule(tid, nthreads, k, picker, rng, broken_lock=False, client_name="
     return {"id": tid, "nthreads": nthreads, "k": k, "ev": sched.events, "calls": calls,
             "frames": [list(f) for f in frames], "connfail": 1 if connfail_first else 0,
             # executions the implementation-shaped model describes: the TCP client with a working connect and the real lock
-            "refine": 1 if (client_name == "tcp" and not connfail_first and not broken_lock) else 0}
+            "refine": 1 if (client_name == "tcp" and not connfail_first and not broken_lock and not broadcaster) else 0}
 
 
 def pickers(nthreads, rng, tier):
@@ -337,6 +349,12 @@ def run(prop, tier):
         ps = pickers(nt, rng, "quick")
         for j, p in enumerate(ps[::6] if tier == "quick" else ps):
             traces.append(run_schedule("w%d" % k, nt, kk, p, rng, units_differ=(j % 2 == 1), slow=True))
+            k += 1
+    # one of the callers broadcasts (writes to unit 0 with broadcast_enable): no reply is read, the line is still taken in turn
+    for nt, kk in ([(3, 2)] if tier == "quick" else [(2, 2), (3, 2), (4, 2)]):
+        ps = pickers(nt, rng, "quick")
+        for j, p in enumerate(ps[::4] if tier == "quick" else ps):
+            traces.append(run_schedule("q%d" % k, nt, kk, p, rng, units_differ=(j % 2 == 1), broadcaster=1 + j % nt))
             k += 1
     # the same on a serial RTU client (its send path waits on the client state and the silent interval: more yield points)
     for nt, kk in ([(2, 2), (3, 2)] if tier == "quick" else [(2, 2), (3, 2), (4, 2)]):
